@@ -354,11 +354,35 @@ func chanQ(n int) func() (queue.Queue[int], bool, int) {
 
 // S3: pooled packet codecs.
 func poolScenario(threads int, compress bool) Scenario {
+	return poolScenarioF(threads, compress, false)
+}
+
+// poolScenarioF with fault: before the threads start, one UnPack meets a frame whose body ends early and fails. What
+// that failure leaves in the shared pools (an object put back twice, a buffer still holding half a frame) is the
+// state the concurrent users start from.
+func poolScenarioF(threads int, compress, fault bool) Scenario {
 	name := fmt.Sprintf("pack-unpack/threads=%d/compress=%v", threads, compress)
+	if fault {
+		name += "/after-a-failed-unpack"
+	}
 	return Scenario{Name: name, Horizon: 4000, Body: func(x *Exec) {
 		threshold := -1
 		if compress {
 			threshold = 8
+		}
+		if fault {
+			var wire bytes.Buffer
+			p := pk.Packet{ID: 0x55, Data: bytes.Repeat([]byte{0x5a}, 40)}
+			if err := p.Pack(&wire, threshold); err != nil {
+				x.fail("Pack failed: %v", err)
+				return
+			}
+			cut := wire.Bytes()[:wire.Len()/2]
+			var got pk.Packet
+			if err := got.UnPack(bytes.NewReader(cut), threshold); err == nil {
+				x.fail("UnPack accepted a frame whose body ends after %d of %d bytes", len(cut), wire.Len())
+				return
+			}
 		}
 		var hs []sched.Handle
 		for t := 1; t <= threads; t++ {
@@ -574,6 +598,7 @@ func scenarios(thorough bool) []Scenario {
 		queueScenario("chan1/1prod x3/1cons/consumers-first", chanQ(1), 1, 3, 1, true),
 		poolScenario(2, false),
 		poolScenario(2, true),
+		poolScenarioF(2, true, true),
 		nbtCacheScenario(2),
 		playerListScenario(1),
 		playerListScenario(2),
